@@ -227,6 +227,15 @@ def generate(tier, seed, ctx):
             continue
         rec('from_boc_' + kind, n, e, len(data), lambda: Cell.one_from_boc(data))
         rec('copy_hash_' + kind, n, e, 0, lambda: (root.copy().hash, root.begin_parse().to_cell().hash))
+    # two separately built (equal, not identical) copies of a shared DAG: comparing them, using one to look the other up, and
+    # serialising a tree that holds both is work in the size of the DAG, not in the number of its paths
+    for d in ((10, 20, 40) if q else (5, 10, 20, 30, 40, 60)):
+        a, b = double_chain(d), double_chain(d)
+        pa = Cell.one_from_boc(a.to_boc())
+        rec('eq_double_chain', 2 * (d + 1), 4 * d, 0, lambda: (a == b, b == pa, a != pa))
+        rec('dictkey_double_chain', 2 * (d + 1), 4 * d, 0, lambda: ({a: 1}.get(b), pa in {b: 2}, len({a, b, pa})))
+        both = Builder().store_ref(a).store_ref(pa).end_cell()
+        rec('to_boc_two_copies_double_chain', 2 * (d + 1) + 1, 4 * d + 2, 0, lambda: both.to_boc())
     # adversarial BoC headers: huge counts over a short body
     body = bytes(rng.getrandbits(8) for _ in range(200))
     for size, offb in ((1, 1), (2, 2), (4, 4), (4, 8), (3, 3)):
